@@ -95,12 +95,15 @@ fn crafted() -> Vec<(String, Vec<KEv>)> {
         h.push(t(400));
         v.push((cfg, h));
     }
-    // every key code once, mapped or not
+    // every key code the event loop can hand to `handle_input_event`, once. The loop forwards an
+    // event untouched unless its code is in MAPPED_KEYS, and a mapped code is always below
+    // KEYS_IN_ROW = 767 (process-unmapped-keys maps 0..KEYS_IN_ROW, defsrc/deflayermap/deflocalkeys
+    // refuse anything larger - C11 `mapped_set_spec`), so code 767 never reaches the state machine.
     {
         let cfg = "(defcfg process-unmapped-keys yes)\n(defsrc a)\n(deflayer l0 (tap-hold 0 5 a b))\n".to_string();
-        for lo in (0..768u16).step_by(24) {
+        for lo in (0..767u16).step_by(24) {
             let mut h = vec![];
-            for c in lo..std::cmp::min(lo + 24, 768) {
+            for c in lo..std::cmp::min(lo + 24, 767) {
                 if kanata_parser::keys::OsCode::from_u16(c).is_none() {
                     continue;
                 }
